@@ -3,18 +3,38 @@
 package cluster
 
 // Correspondence probe for the Coq model Burrow.ClusterMod (C11, C12).  Reads generated scenarios (1..6 consecutive
-// refresh cycles with a scripted Sarama client and scripted brokers), runs the real getOffsets on them (the function
-// mainLoop calls on every offset tick; it calls maybeUpdateMetadataAndDeleteTopics and generateOffsetRequests itself)
-// and prints per cycle: whether metadata was re-read, the fetchMetadata flag afterwards, the blocks of every
-// OffsetRequest a broker received, and every StorageRequest sent to App.StorageChannel.
+// refresh cycles of one Kafka cluster module), runs the real module on them and prints per cycle: whether metadata was
+// re-read, the fetchMetadata flag afterwards, the blocks of every OffsetRequest a broker received, and every
+// StorageRequest the STORAGE SIDE RECEIVED from App.StorageChannel.
 //
-// Case:   scn|scnx <ncycles> { <tick> <topics_ok> <k> <topic>*k
-//                              <nT> { <topic> <parts_ok> <np> { <pid> <leader|-1> <kerror> <noffs> <off>* } }
-//                              <nF> <failing broker>* }
+// How a scenario is run (one engine for all kinds):
+//   * the module is configured by the real Configure (viper: cluster + client-profile with the case's kafka-version),
+//     so name, saramaConfig (Version!) and the refresh settings are what production code has;
+//   * cycle 0 is what Start() does (fetchMetadata = true; getOffsets(client)); every later cycle goes through the real
+//     mainLoop: scripted tickers (time.Ticker{C: chan}) deliver a metadata tick (if the case says so) and an offset tick;
+//     a groups-reaper tick is the barrier (mainLoop takes it only after getOffsets has returned);
+//   * the storage side is a goroutine reading App.StorageChannel.  Kinds scn/scnx/sc2/sc2x use a buffered channel
+//     (4096); kind sc2s uses an UNBUFFERED channel and a scripted reader: `sd` = the reader takes nothing for 1.5 s
+//     from the start of the cycle (or until the first broker is asked), `su` = the reader takes nothing from the moment
+//     the first broker is asked until getOffsets has returned (every TimeoutSendStorageRequest(…, 1) of the cycle runs
+//     into its timeout).  sc2s scenarios run in parallel (they mostly sleep);
+//   * the client is scripted (vcClient / vcBroker).  The scripted broker answers like a real broker behind sarama for
+//     the request version it receives: a version the configured kafka-version does not have is refused
+//     (ErrUnsupportedVersion, as sarama's Broker.send does), a v0 answer has only Offsets (at most maxNumOffsets),
+//     a v1+ answer has Offset/Timestamp and Offsets = [Offset] (what sarama's decoder leaves);
+//   * kind sc2w: the client is the real helpers.BurrowSaramaClient on a real sarama.Client talking the wire protocol
+//     to sarama.MockBroker instances programmed from the script (restricted scripts: see checks/clustergen.py).
+//
+// Case:   scn|scnx <ncycles> { <cycle> }                                    (kafka-version unset, no storage script)
+//         sc2|sc2x|sc2s|sc2w <kafka-version index> <ncycles> { <sd> <su> <rp> <rm> <cycle> }
+//         <cycle> = <tick> <topics_ok> <k> <topic>*k
+//                   <nT> { <topic> <parts_ok> <np> { <pid> <leader|-1> <kerror> <noffs> <off>* } }
+//                   <nF> <failing broker>*
+//         rp: the reaper tick after the cycle finds a working ListConsumerGroups; rm: RefreshMetadata returns an error
 // Output: cycles joined by " | "; a cycle is
-//           M<refresh attempted> F<fetchMetadata after> R <b:t:p,..|-> U <t:p:off:count,..|-> D <t,..|->
-//         or CRASH (the process died in that cycle).  `scnx` cases (those that may panic inside a goroutine of
-//         getOffsets, which no recover can catch) are run in a child process.
+//           M<refresh attempted> F<fetchMetadata after> R <b:t:p,..|-> U <t:p:off:count,..|-> D <t,..|-> [X anomalies]
+//         or CRASH (the process died in that cycle) or HANG (the module did not take a tick within 45 s).
+//         x-kinds (may panic inside a goroutine of getOffsets, which no recover can catch) run in a child process.
 
 import (
 	"bufio"
@@ -31,11 +51,16 @@ import (
 	"time"
 
 	"github.com/IBM/sarama"
+	"github.com/spf13/viper"
 	"go.uber.org/zap"
 
 	"github.com/linkedin/Burrow/core/internal/helpers"
 	"github.com/linkedin/Burrow/core/protocol"
 )
+
+// legal client-profile kafka-version strings (helpers.parseKafkaVersion); index 0 = not configured (default)
+var vcKafkaVersions = []string{"", "0.8", "0.8.2", "0.8.2.2", "0.9", "0.9.0.1", "0.10", "0.10.0.1", "0.10.1", "0.10.1.0",
+	"0.10.2.1", "0.11.0.2", "1.0.0", "1.1.1", "2.0.0", "2.1.0", "2.4.0", "2.8.0", "3.6.0"}
 
 type vcToks struct {
 	f []string
@@ -65,11 +90,12 @@ type vcTrow struct {
 }
 
 type vcEnv struct {
-	tick     bool
-	topicsOK bool
-	topics   []string
-	table    map[string]*vcTrow
-	failing  map[int32]bool
+	sd, su, rp, rm bool
+	tick           bool
+	topicsOK       bool
+	topics         []string
+	table          map[string]*vcTrow
+	failing        map[int32]bool
 }
 
 // mayPanic: some scripted answer has ErrNoError and no offsets (timing hint for the child process only)
@@ -93,8 +119,14 @@ func vcTopicID(s string) int64 {
 	return v
 }
 
-func vcReadEnv(t *vcToks) *vcEnv {
+func vcReadEnv(t *vcToks, scripted bool) *vcEnv {
 	e := &vcEnv{table: map[string]*vcTrow{}, failing: map[int32]bool{}}
+	if scripted {
+		e.sd = t.int() == 1
+		e.su = t.int() == 1
+		e.rp = t.int() == 1
+		e.rm = t.int() == 1
+	}
 	e.tick = t.int() == 1
 	e.topicsOK = t.int() == 1
 	for k := t.int(); k > 0; k-- {
@@ -127,12 +159,123 @@ func vcReadEnv(t *vcToks) *vcEnv {
 	return e
 }
 
+// ---- the storage side --------------------------------------------------------------------------
+
+const (
+	vcOpBegin  = iota // a cycle begins: sd / su of the cycle
+	vcOpPhase         // the first broker is being asked: deletions are over, broker-offset updates may follow
+	vcOpResume        // getOffsets has returned: read again
+	vcOpEnd           // hand over what was received in the cycle
+)
+
+type vcRec struct {
+	ups, dels  [][]int64
+	groups     []string // StorageSetDeleteGroup
+	fetches    int      // StorageFetchConsumers
+	other      int
+	replyStuck int
+}
+
+type vcCtl struct {
+	op     int
+	sd, su bool
+	reply  chan vcRec
+}
+
+type vcStore struct {
+	ch   chan *protocol.StorageRequest
+	ctl  chan vcCtl
+	name string
+}
+
+func (s *vcStore) call(op int, sd, su bool) vcRec {
+	c := vcCtl{op: op, sd: sd, su: su, reply: make(chan vcRec, 1)}
+	s.ctl <- c
+	return <-c.reply
+}
+
+func (s *vcStore) record(rec *vcRec, r *protocol.StorageRequest) {
+	switch {
+	case r.Cluster != s.name:
+		rec.other++
+	case r.RequestType == protocol.StorageSetBrokerOffset:
+		rec.ups = append(rec.ups, []int64{vcTopicID(r.Topic), int64(r.Partition), r.Offset, int64(r.TopicPartitionCount)})
+	case r.RequestType == protocol.StorageSetDeleteTopic:
+		rec.dels = append(rec.dels, []int64{vcTopicID(r.Topic)})
+	case r.RequestType == protocol.StorageSetDeleteGroup:
+		rec.groups = append(rec.groups, r.Group)
+	case r.RequestType == protocol.StorageFetchConsumers && r.Reply != nil:
+		rec.fetches++
+		select {
+		case r.Reply <- []string{"g1", "g2", "burrow-" + s.name}:
+		case <-time.After(5 * time.Second):
+			rec.replyStuck++
+		}
+	default:
+		rec.other++
+	}
+}
+
+// loop is the storage module as far as the cluster module can tell: somebody who takes requests from the channel,
+// promptly or (scripted) not.
+func (s *vcStore) loop() {
+	var rec vcRec
+	in := s.ch
+	su := false
+	var wake <-chan time.Time
+	for {
+		select {
+		case r := <-in:
+			s.record(&rec, r)
+		case <-wake:
+			wake = nil
+			in = s.ch
+		case c, ok := <-s.ctl:
+			if !ok {
+				return
+			}
+			switch c.op {
+			case vcOpBegin:
+				su = c.su
+				in, wake = s.ch, nil
+				if c.sd {
+					in, wake = nil, time.After(1500*time.Millisecond)
+				}
+			case vcOpPhase:
+				in, wake = s.ch, nil
+				if su {
+					// nobody home while the brokers' answers are turned into requests; the watchdog ends the stall if the
+					// module is still offering requests after 10 s (HEAD gives up after 1 s per request)
+					in, wake = nil, time.After(10*time.Second)
+				}
+			case vcOpResume:
+				in, wake, su = s.ch, nil, false
+			case vcOpEnd:
+				in, wake, su = s.ch, nil, false
+			drain:
+				for {
+					select {
+					case r := <-s.ch:
+						s.record(&rec, r)
+					default:
+						break drain
+					}
+				}
+				c.reply <- rec
+				rec = vcRec{}
+				continue
+			}
+			c.reply <- vcRec{}
+		}
+	}
+}
+
 // ---- scripted Sarama client and brokers ------------------------------------------------------
 
 type vcAsk struct {
 	broker, part int32
 	topic        int64
-	bad          bool // block does not ask for (OffsetNewest, 1)
+	bad          bool // block does not ask for OffsetNewest
 }
 
 type vcWorld struct {
@@ -140,7 +283,27 @@ type vcWorld struct {
 	env         *vcEnv
 	asks        []vcAsk
 	topicsCalls int
+	lcgTokens   int // how many of the next ListConsumerGroups calls succeed
+	phase       *sync.Once
+	store       *vcStore
+	cfg         *sarama.Config
 	brokers     map[int32]*vcBroker
+}
+
+func (w *vcWorld) begin(e *vcEnv) {
+	w.mu.Lock()
+	defer w.mu.Unlock()
+	w.env = e
+	w.asks = nil
+	w.topicsCalls = 0
+	w.lcgTokens = 0
+	w.phase = new(sync.Once)
+}
+
+func (w *vcWorld) setLcg(tokens int) {
+	w.mu.Lock()
+	w.lcgTokens = tokens
+	w.mu.Unlock()
 }
 
 // Only the methods the module calls are implemented; any other call hits the nil embedded interface and panics.
@@ -149,7 +312,12 @@ type vcClient struct {
 	w *vcWorld
 }
 
-func (c *vcClient) RefreshMetadata(topics ...string) error { return nil }
+func (c *vcClient) RefreshMetadata(topics ...string) error {
+	if c.w.env.rm {
+		return errors.New("scripted: metadata refresh failure")
+	}
+	return nil
+}
 
 func (c *vcClient) Topics() ([]string, error) {
 	c.w.mu.Lock()
@@ -188,6 +356,16 @@ func (c *vcClient) Leader(topic string, partitionID int32) (helpers.SaramaBroker
 	return nilBroker, errors.New("scripted: no leader")
 }
 
+func (c *vcClient) ListConsumerGroups() (map[string]string, error) {
+	c.w.mu.Lock()
+	defer c.w.mu.Unlock()
+	if c.w.lcgTokens <= 0 {
+		return nil, errors.New("scripted: consumer group list failure")
+	}
+	c.w.lcgTokens--
+	return map[string]string{"g1": "consumer"}, nil
+}
+
 type vcBroker struct {
 	id int32
 	w  *vcWorld
@@ -196,49 +374,109 @@ type vcBroker struct {
 func (b *vcBroker) ID() int32    { return b.id }
 func (b *vcBroker) Close() error { return nil }
 
-// GetAvailableOffsets records the blocks of the request (read by reflection: sarama keeps them unexported) and
-// answers exactly the blocks asked, from the script.
-func (b *vcBroker) GetAvailableOffsets(request *sarama.OffsetRequest) (*sarama.OffsetResponse, error) {
-	b.w.mu.Lock()
-	defer b.w.mu.Unlock()
-	type tp struct {
-		topic string
-		part  int32
+// what sarama's OffsetRequest.requiredVersion says
+func vcRequiredVersion(v int16) sarama.KafkaVersion {
+	switch v {
+	case 0:
+		return sarama.V0_8_2_0
+	case 1:
+		return sarama.V0_10_1_0
+	case 2:
+		return sarama.V0_11_0_0
+	case 3:
+		return sarama.V2_0_0_0
+	case 4:
+		return sarama.V2_1_0_0
 	}
-	var asked []tp
+	return sarama.V2_0_0_0
+}
+
+type vcBlockAsk struct {
+	topic string
+	part  int32
+	maxN  int64
+	bad   bool
+}
+
+// vcRequestBlocks reads the blocks of a request (by reflection: sarama keeps them unexported)
+func vcRequestBlocks(request *sarama.OffsetRequest) ([]vcBlockAsk, bool) {
+	var asked []vcBlockAsk
 	blocks := reflect.ValueOf(request).Elem().FieldByName("blocks")
 	if !blocks.IsValid() || blocks.Kind() != reflect.Map {
-		b.w.asks = append(b.w.asks, vcAsk{broker: b.id, topic: -998, bad: true})
-		return nil, errors.New("probe: cannot read request blocks")
+		return nil, false
 	}
 	for _, tk := range blocks.MapKeys() {
 		inner := blocks.MapIndex(tk)
 		for _, pk := range inner.MapKeys() {
 			blk := inner.MapIndex(pk).Elem()
-			bad := false
+			a := vcBlockAsk{topic: tk.String(), part: int32(pk.Int()), maxN: 1}
 			if f := blk.FieldByName("timestamp"); f.IsValid() && f.Int() != sarama.OffsetNewest {
-				bad = true
+				a.bad = true // not the end offset
 			}
-			if f := blk.FieldByName("maxNumOffsets"); f.IsValid() && f.Int() != 1 {
-				bad = true
+			if f := blk.FieldByName("maxNumOffsets"); f.IsValid() {
+				a.maxN = f.Int()
 			}
-			asked = append(asked, tp{tk.String(), int32(pk.Int())})
-			b.w.asks = append(b.w.asks, vcAsk{broker: b.id, topic: vcTopicID(tk.String()), part: int32(pk.Int()), bad: bad})
+			asked = append(asked, a)
 		}
 	}
+	return asked, true
+}
+
+// vcAnswerBlock: the response block as the module sees it after sarama decoded a real broker's answer of that version
+func vcAnswerBlock(version int16, maxN int64, kerr int16, offs []int64) *sarama.OffsetResponseBlock {
+	blk := &sarama.OffsetResponseBlock{Err: sarama.KError(kerr)}
+	if version == 0 {
+		n := int64(len(offs))
+		if maxN < n {
+			n = maxN
+		}
+		if n < 0 {
+			n = 0
+		}
+		blk.Offsets = append([]int64{}, offs[:n]...)
+		return blk
+	}
+	off := int64(-1)
+	if len(offs) > 0 {
+		off = offs[0]
+	}
+	blk.Offset = off
+	blk.Timestamp = -1
+	blk.Offsets = []int64{off}
+	return blk
+}
+
+// GetAvailableOffsets records the blocks of the request and answers exactly the blocks asked, from the script.
+func (b *vcBroker) GetAvailableOffsets(request *sarama.OffsetRequest) (*sarama.OffsetResponse, error) {
+	b.w.mu.Lock()
+	once := b.w.phase
+	b.w.mu.Unlock()
+	// the storage reader is told, and has acknowledged, that deletions are over before any broker answers
+	once.Do(func() { b.w.store.call(vcOpPhase, false, false) })
+
+	b.w.mu.Lock()
+	defer b.w.mu.Unlock()
+	asked, ok := vcRequestBlocks(request)
+	if !ok {
+		b.w.asks = append(b.w.asks, vcAsk{broker: b.id, topic: -998, bad: true})
+		return nil, errors.New("probe: cannot read request blocks")
+	}
+	for _, a := range asked {
+		b.w.asks = append(b.w.asks, vcAsk{broker: b.id, topic: vcTopicID(a.topic), part: a.part, bad: a.bad})
+	}
+	var nilResp *sarama.OffsetResponse
+	if b.w.cfg != nil && !b.w.cfg.Version.IsAtLeast(vcRequiredVersion(request.Version)) {
+		return nilResp, sarama.ErrUnsupportedVersion // sarama's Broker.send refuses the request before any I/O
+	}
 	if b.w.env.failing[b.id] {
-		var nilResp *sarama.OffsetResponse
 		return nilResp, errors.New("scripted: broker call failure")
 	}
-	resp := &sarama.OffsetResponse{Version: request.Version, Blocks: map[string]map[int32]*sarama.OffsetResponseBlock{}}
+	resp := &sarama.OffsetResponse{Blocks: map[string]map[int32]*sarama.OffsetResponseBlock{}}
 	for _, a := range asked {
-		blk := &sarama.OffsetResponseBlock{Err: sarama.ErrUnknownTopicOrPartition}
+		blk := vcAnswerBlock(request.Version, a.maxN, int16(sarama.ErrUnknownTopicOrPartition), nil)
 		if row, ok := b.w.env.table[a.topic]; ok {
 			if pr, ok := row.rows[a.part]; ok {
-				blk = &sarama.OffsetResponseBlock{Err: sarama.KError(pr.kerr), Offsets: append([]int64(nil), pr.offs...)}
-				if len(pr.offs) > 0 {
-					blk.Offset = pr.offs[0]
-				}
+				blk = vcAnswerBlock(request.Version, a.maxN, pr.kerr, pr.offs)
 			}
 		}
 		if resp.Blocks[a.topic] == nil {
@@ -282,68 +520,295 @@ func vcB01(b bool) string {
 	return "0"
 }
 
-// vcScenario runs the cycles on a fresh module; emit is called with each finished cycle's text.
-func vcScenario(t *vcToks, child bool, emit func(string)) {
-	n := t.int()
-	envs := make([]*vcEnv, n)
-	for i := range envs {
-		envs[i] = vcReadEnv(t)
-	}
-	module := &KafkaCluster{Log: zap.NewNop(), name: "verifcluster"}
-	module.App = &protocol.ApplicationContext{
-		Logger:         zap.NewNop(),
-		StorageChannel: make(chan *protocol.StorageRequest, 4096),
-	}
-	module.fetchMetadata = true // as Start() does before the first getOffsets
-	w := &vcWorld{brokers: map[int32]*vcBroker{}}
-	client := &vcClient{w: w}
-	for _, e := range envs {
-		w.env = e
-		w.asks = nil
-		w.topicsCalls = 0
-		if e.tick {
-			module.fetchMetadata = true // case <-module.metadataTicker.C
+type vcScn struct {
+	idx    int
+	kind   string
+	kv     int
+	envs   []*vcEnv
+	module *KafkaCluster
+	out    []string
+}
+
+var vcConfigOnce sync.Once
+
+// vcSetupConfig: one client-profile and one cluster section per kafka-version of the table
+func vcSetupConfig() {
+	viper.Reset()
+	for i, v := range vcKafkaVersions {
+		prof := "kv" + strconv.Itoa(i)
+		viper.Set("client-profile."+prof+".client-id", "verif")
+		if v != "" {
+			viper.Set("client-profile."+prof+".kafka-version", v)
 		}
-		module.getOffsets(client) // case <-module.offsetTicker.C
+		viper.Set("cluster."+prof+".class-name", "kafka")
+		viper.Set("cluster."+prof+".servers", []string{"broker1.example.com:9092"})
+		viper.Set("cluster."+prof+".client-profile", prof)
+	}
+}
+
+// vcParse reads a case line and configures the module (real Configure; viper is global, so this is done serially)
+func vcParse(line string, caseNo int) *vcScn {
+	tk := &vcToks{f: strings.Fields(line)}
+	sc := &vcScn{kind: tk.next()}
+	scripted := strings.HasPrefix(sc.kind, "sc2")
+	if !scripted && sc.kind != "scn" && sc.kind != "scnx" {
+		panic("unknown case kind in " + line)
+	}
+	if scripted {
+		sc.kv = tk.int()
+		if sc.kv < 0 || sc.kv >= len(vcKafkaVersions) {
+			panic("kafka-version index out of range in " + line)
+		}
+	}
+	n := tk.int()
+	for i := 0; i < n; i++ {
+		sc.envs = append(sc.envs, vcReadEnv(tk, scripted))
+	}
+	if tk.i != len(tk.f) {
+		panic("trailing tokens in " + line)
+	}
+	vcConfigOnce.Do(vcSetupConfig)
+	capacity := 4096
+	if sc.kind == "sc2s" {
+		capacity = 0
+	}
+	sc.module = &KafkaCluster{Log: zap.NewNop()}
+	sc.module.App = &protocol.ApplicationContext{
+		Logger:         zap.NewNop(),
+		StorageChannel: make(chan *protocol.StorageRequest, capacity),
+	}
+	sc.module.Configure("verifcluster"+strconv.Itoa(caseNo), "cluster.kv"+strconv.Itoa(sc.kv))
+	return sc
+}
+
+func vcTick(ch chan time.Time) bool {
+	select {
+	case ch <- time.Now():
+		return true
+	case <-time.After(45 * time.Second):
+		return false
+	}
+}
+
+// run executes the cycles; emit is called with each finished cycle's text.
+func (sc *vcScn) run(child bool, emit func(string)) {
+	if sc.kind == "sc2w" {
+		sc.runWire(emit)
+		return
+	}
+	module := sc.module
+	w := &vcWorld{brokers: map[int32]*vcBroker{}, cfg: module.saramaConfig}
+	st := &vcStore{ch: module.App.StorageChannel, ctl: make(chan vcCtl), name: module.name}
+	w.store = st
+	go st.loop()
+	defer close(st.ctl)
+	client := &vcClient{w: w}
+	var offC, metaC, reapC chan time.Time
+	started := false
+	for i, e := range sc.envs {
+		w.begin(e)
+		st.call(vcOpBegin, e.sd, e.su)
+		rp := false
+		if i == 0 {
+			// Start(): module.fetchMetadata = true; module.getOffsets(helperClient)
+			module.fetchMetadata = true
+			module.getOffsets(client)
+		} else {
+			if !started {
+				// Start(): tickers, then go module.mainLoop(helperClient).  The tickers are scripted.
+				offC, metaC, reapC = make(chan time.Time), make(chan time.Time), make(chan time.Time)
+				module.offsetTicker = &time.Ticker{C: offC}
+				module.metadataTicker = &time.Ticker{C: metaC}
+				module.groupsReaperTicker = &time.Ticker{C: reapC}
+				go module.mainLoop(client)
+				started = true
+			}
+			rp = e.rp
+			ok := true
+			if e.tick {
+				ok = vcTick(metaC)
+			}
+			ok = ok && vcTick(offC)
+			if rp {
+				w.setLcg(1) // the reaper run of the barrier tick finds a working ListConsumerGroups, the next one does not
+			}
+			ok = ok && vcTick(reapC) // taken by mainLoop only after getOffsets has returned
+			if !ok {
+				emit("HANG")
+				return
+			}
+		}
 		if child && e.mayPanic() {
 			// A panicking goroutine of getOffsets runs its deferred wg.Done() before the runtime kills the process, so
 			// getOffsets may return here while the process is dying: wait for the death before reporting the cycle.
 			time.Sleep(150 * time.Millisecond)
 		}
-		var ups, dels, asks [][]int64
-		other := 0
-	drain:
-		for {
-			select {
-			case r := <-module.App.StorageChannel:
-				switch {
-				case r.Cluster != "verifcluster":
-					other++
-				case r.RequestType == protocol.StorageSetBrokerOffset:
-					ups = append(ups, []int64{vcTopicID(r.Topic), int64(r.Partition), r.Offset, int64(r.TopicPartitionCount)})
-				case r.RequestType == protocol.StorageSetDeleteTopic:
-					dels = append(dels, []int64{vcTopicID(r.Topic)})
-				default:
-					other++
-				}
-			default:
-				break drain
+		flag := module.fetchMetadata
+		st.call(vcOpResume, false, false)
+		if rp {
+			// the reaper run triggered by the barrier tick talks to storage; a second (failing) reaper tick is taken
+			// only when it is through
+			if !vcTick(reapC) {
+				emit("HANG")
+				return
 			}
 		}
+		rec := st.call(vcOpEnd, false, false)
+		var asks [][]int64
 		bad := 0
+		w.mu.Lock()
 		for _, a := range w.asks {
 			asks = append(asks, []int64{int64(a.broker), a.topic, int64(a.part)})
 			if a.bad {
 				bad++
 			}
 		}
-		s := fmt.Sprintf("M%s F%s R %s U %s D %s", vcB01(w.topicsCalls > 0), vcB01(module.fetchMetadata), vcCsv(asks), vcCsv(ups), vcCsv(dels))
-		if other > 0 || bad > 0 || w.topicsCalls > 1 {
-			s += fmt.Sprintf(" X other=%d badblocks=%d topicscalls=%d", other, bad, w.topicsCalls)
+		topicsCalls := w.topicsCalls
+		w.mu.Unlock()
+		s := fmt.Sprintf("M%s F%s R %s U %s D %s", vcB01(topicsCalls > 0), vcB01(flag), vcCsv(asks), vcCsv(rec.ups), vcCsv(rec.dels))
+		reaperOK := (!rp && rec.fetches == 0 && len(rec.groups) == 0) ||
+			(rp && rec.fetches == 1 && len(rec.groups) == 1 && rec.groups[0] == "g2")
+		if rec.other > 0 || bad > 0 || topicsCalls > 1 || !reaperOK || rec.replyStuck > 0 {
+			s += fmt.Sprintf(" X other=%d badblocks=%d topicscalls=%d reaper=%d/%s/%d", rec.other, bad, topicsCalls,
+				rec.fetches, strings.Join(rec.groups, "+"), rec.replyStuck)
+		}
+		emit(s)
+	}
+	if started {
+		module.Stop()
+	}
+}
+
+// ---- kind sc2w: real sarama client, sarama.MockBroker, the wire protocol -------------------------
+
+type vcReporter struct {
+	mu   sync.Mutex
+	errs []string
+}
+
+func (r *vcReporter) add(s string) {
+	r.mu.Lock()
+	r.errs = append(r.errs, s)
+	r.mu.Unlock()
+}
+func (r *vcReporter) Error(a ...interface{})            { r.add(fmt.Sprint(a...)) }
+func (r *vcReporter) Errorf(f string, a ...interface{}) { r.add(fmt.Sprintf(f, a...)) }
+func (r *vcReporter) Fatal(a ...interface{})            { r.add(fmt.Sprint(a...)) }
+func (r *vcReporter) Fatalf(f string, a ...interface{}) { r.add(fmt.Sprintf(f, a...)) }
+func (r *vcReporter) Helper()                           {}
+func (r *vcReporter) take() int {
+	r.mu.Lock()
+	defer r.mu.Unlock()
+	n := len(r.errs)
+	r.errs = nil
+	return n
+}
+
+func (sc *vcScn) runWire(emit func(string)) {
+	module := sc.module
+	rep := &vcReporter{}
+	ids := map[int32]bool{1: true}
+	for _, e := range sc.envs {
+		for _, row := range e.table {
+			for _, pr := range row.rows {
+				if pr.leader >= 0 {
+					ids[int32(pr.leader)] = true
+				}
+			}
+		}
+	}
+	mocks := map[int32]*sarama.MockBroker{}
+	seen := map[int32]int{}
+	for id := range ids {
+		mocks[id] = sarama.NewMockBroker(rep, id)
+		defer mocks[id].Close()
+	}
+	program := func(e *vcEnv) {
+		md := sarama.NewMockMetadataResponse(rep)
+		for id, mb := range mocks {
+			md.SetBroker(mb.Addr(), id)
+		}
+		ofs := sarama.NewMockOffsetResponse(rep)
+		for _, name := range e.topics {
+			row := e.table[name]
+			for _, p := range row.parts {
+				pr := row.rows[p]
+				md.SetLeader(name, p, int32(pr.leader)) // -1: the partition exists and has no leader
+				if len(pr.offs) > 0 {
+					ofs.SetOffset(name, p, sarama.OffsetNewest, pr.offs[0])
+				}
+			}
+		}
+		for _, mb := range mocks {
+			mb.SetHandlerByMap(map[string]sarama.MockResponse{
+				"ApiVersionsRequest": sarama.NewMockApiVersionsResponse(rep),
+				"MetadataRequest":    md,
+				"OffsetRequest":      ofs,
+			})
+		}
+	}
+	program(sc.envs[0])
+	real, err := sarama.NewClient([]string{mocks[1].Addr()}, module.saramaConfig)
+	if err != nil {
+		emit("M0 F0 R - U - D - X newclient=" + strings.ReplaceAll(err.Error(), " ", "_"))
+		return
+	}
+	defer real.Close()
+	client := &helpers.BurrowSaramaClient{Client: real}
+	st := &vcStore{ch: module.App.StorageChannel, ctl: make(chan vcCtl), name: module.name}
+	go st.loop()
+	defer close(st.ctl)
+	for i, e := range sc.envs {
+		program(e)
+		st.call(vcOpBegin, false, false)
+		metaBefore := 0
+		for _, mb := range mocks {
+			for _, rr := range mb.History() {
+				if _, ok := rr.Request.(*sarama.MetadataRequest); ok {
+					metaBefore++
+				}
+			}
+		}
+		if i == 0 || e.tick {
+			module.fetchMetadata = true // Start() / case <-module.metadataTicker.C
+		}
+		module.getOffsets(client) // case <-module.offsetTicker.C
+		flag := module.fetchMetadata
+		rec := st.call(vcOpEnd, false, false)
+		var asks [][]int64
+		bad, metaAfter := 0, 0
+		for id, mb := range mocks {
+			hist := mb.History()
+			for _, rr := range hist[seen[id]:] {
+				if rq, ok := rr.Request.(*sarama.OffsetRequest); ok {
+					blocks, ok := vcRequestBlocks(rq)
+					if !ok {
+						bad++
+					}
+					for _, a := range blocks {
+						asks = append(asks, []int64{int64(id), vcTopicID(a.topic), int64(a.part)})
+						if a.bad {
+							bad++
+						}
+					}
+				}
+			}
+			seen[id] = len(hist)
+			for _, rr := range hist {
+				if _, ok := rr.Request.(*sarama.MetadataRequest); ok {
+					metaAfter++
+				}
+			}
+		}
+		s := fmt.Sprintf("M%s F%s R %s U %s D %s", vcB01(metaAfter > metaBefore), vcB01(flag), vcCsv(asks), vcCsv(rec.ups), vcCsv(rec.dels))
+		if n := rep.take(); rec.other > 0 || bad > 0 || n > 0 {
+			s += fmt.Sprintf(" X other=%d badblocks=%d mockerrors=%d", rec.other, bad, n)
 		}
 		emit(s)
 	}
 }
+
+// ---- the test -----------------------------------------------------------------------------------
 
 func TestVerifProbeCluster(t *testing.T) {
 	casesPath, outPath := os.Getenv("VERIF_CASES"), os.Getenv("VERIF_OUT")
@@ -364,36 +829,72 @@ func TestVerifProbeCluster(t *testing.T) {
 	defer w.Flush()
 	child := os.Getenv("VERIF_CLUSTER_CHILD") == "1"
 
+	var lines []string
 	sc := bufio.NewScanner(in)
 	sc.Buffer(make([]byte, 1<<20), 1<<26)
-	caseNo := 0
 	for sc.Scan() {
-		line := strings.TrimSpace(sc.Text())
-		if line == "" {
-			continue
+		if line := strings.TrimSpace(sc.Text()); line != "" {
+			lines = append(lines, line)
 		}
-		caseNo++
-		tk := &vcToks{f: strings.Fields(line)}
-		kind := tk.next()
-		switch {
-		case kind == "scn" || (kind == "scnx" && child):
+	}
+
+	if child {
+		// one scenario, streamed: what was finished before a crash must be on disk
+		for i, line := range lines {
+			s := vcParse(line, i)
 			first := true
-			vcScenario(tk, child, func(s string) {
+			s.run(true, func(txt string) {
 				if !first {
 					w.WriteString(" | ")
 				}
 				first = false
-				w.WriteString(s)
-				if child {
-					w.Flush() // what was finished before a crash must be on disk
-				}
+				w.WriteString(txt)
+				w.Flush()
 			})
 			w.WriteString("\n")
-		case kind == "scnx":
-			w.WriteString(vcRunChild(t, line, caseNo) + "\n")
-		default:
-			t.Fatalf("unknown case kind in %q", line)
 		}
+		return
+	}
+
+	// viper is not safe for concurrent use and the real Configure writes defaults into it: every Configure is called
+	// from this goroutine.  Pass 1 prepares the scenarios that run in parallel (real time), pass 2 runs the others
+	// one at a time while those are under way (the running scenarios never touch viper).
+	parallel := func(line string) bool { return strings.HasPrefix(line, "sc2s ") || strings.HasPrefix(line, "sc2w ") }
+	results := make([]string, len(lines))
+	var wg sync.WaitGroup
+	gate := make(chan struct{}, 256)
+	var par []*vcScn
+	for i, line := range lines {
+		if parallel(line) {
+			s := vcParse(line, i)
+			s.idx = i
+			par = append(par, s)
+		}
+	}
+	for _, s := range par {
+		wg.Add(1)
+		go func(s *vcScn) {
+			defer wg.Done()
+			gate <- struct{}{}
+			defer func() { <-gate }()
+			s.run(false, func(txt string) { s.out = append(s.out, txt) })
+			results[s.idx] = strings.Join(s.out, " | ")
+		}(s)
+	}
+	for i, line := range lines {
+		switch {
+		case parallel(line):
+		case strings.HasPrefix(line, "scnx ") || strings.HasPrefix(line, "sc2x "):
+			results[i] = vcRunChild(t, line, i)
+		default:
+			s := vcParse(line, i)
+			s.run(false, func(txt string) { s.out = append(s.out, txt) })
+			results[i] = strings.Join(s.out, " | ")
+		}
+	}
+	wg.Wait()
+	for _, r := range results {
+		w.WriteString(r + "\n")
 	}
 }
 
@@ -409,7 +910,7 @@ func vcRunChild(t *testing.T, line string, caseNo int) string {
 	if err := os.WriteFile(cpath, []byte(line+"\n"), 0o644); err != nil {
 		t.Fatal(err)
 	}
-	cmd := exec.Command(os.Args[0], "-test.run", "^TestVerifProbeCluster$", "-test.count=1", "-test.timeout", "60s")
+	cmd := exec.Command(os.Args[0], "-test.run", "^TestVerifProbeCluster$", "-test.count=1", "-test.timeout", "120s")
 	cmd.Env = append(os.Environ(), "VERIF_CASES="+cpath, "VERIF_OUT="+opath, "VERIF_CLUSTER_CHILD=1")
 	runErr := cmd.Run()
 	data, _ := os.ReadFile(opath)
